@@ -8,7 +8,7 @@ Open Scope Z_scope.
 
 (** For every plan [rolling_plan_of] computes from duplicate-free planning items (any number of nodes,
     any assignment of nodes to the seven classes, any maxUnavailable / maxPodSchedulerFailure,
-    absolute or percent) and EVERY choice of update-deletions the model admits - every iteration order
+    absolute or percent) and EVERY choice of update-deletions the model allows - every iteration order
     of the controller's per-node map - the number of AVAILABLE pods deleted is at most
     max(0, maxUnavailable - U), U = targeted nodes without an available pod, stuck/unresponsive ones
     tolerated up to maxPodSchedulerFailure. *)
